@@ -239,12 +239,14 @@ class _Builder:
         ext = self.feat.ext_arrays and d(st.integers(0, 3)) == 0
         cap = self.capacity(bits, budget - (16 if ext else 0))
         cap_text = None
+        cap_const = None
         if self.feat.cap_consts and self.feat.consts and d(st.integers(0, 5)) == 0:
             cs = [(t, c) for t, c in self.const_candidates() if isinstance(c.value, int) and not isinstance(c.value, bool) and 1 <= c.value <= 65535 and c.value * bits <= max(budget, bits)]
             if cs:
                 cap_text, c = d(st.sampled_from(cs))
                 cap = c.value
-        return TArray(elem, cap, ext, cap_text)
+                cap_const = c
+        return TArray(elem, cap, ext, cap_text, cap_const)
 
     # -- definitions -------------------------------------------------------
 
